@@ -241,6 +241,20 @@ func c01Tombstones(p *Prog, r *Report) {
 							}
 						}
 					}
+				} else if hc, isCall := ast.Unparen(a).(*ast.CallExpr); isCall {
+					// the version built by a helper of the use case: newVersion(ctx, key)
+					if h := p.staticCallee(fi.Pkg, hc); h != nil && h.Pkg == fi.Pkg {
+						ast.Inspect(h.Decl.Body, func(x ast.Node) bool {
+							if kv, ok := x.(*ast.KeyValueExpr); ok {
+								if id, ok := kv.Key.(*ast.Ident); ok && id.Name == "ContentId" {
+									if c, ok := ast.Unparen(kv.Value).(*ast.CallExpr); ok && p.callIs(fi.Pkg, c, kGenerate) {
+										fresh = true
+									}
+								}
+							}
+							return true
+						})
+					}
 				} else if o := objOf(info, a); o != nil {
 					// variable: look for ContentId assigned from Generate
 					ast.Inspect(fi.Decl.Body, func(x ast.Node) bool {
